@@ -45,7 +45,8 @@ Section Read.
     flat_map (fun e => match e with LvStdout t => t | _ => [] end) evs.
 
   (* outcome of __config_read *)
-  Inductive rd_out := RdOk | RdFail | RdExit (code : Z) | RdStuck.
+  Inductive rd_out := RdOk | RdFail | RdExit (code : Z) | RdStuck
+  | RdNest.   (* nesting beyond NEST_LIMIT: the LALR stack limit (YYMAXDEPTH) may be hit; outcome not modelled *)
 
   Record rd_result := mkRd {
     rd_cfg : cfg;
@@ -72,11 +73,27 @@ Section Read.
     | None => mkErr (e_type e) (Some msg) (e_file e) line
     end.
 
+  (* deepest bracket nesting of a token stream *)
+  Fixpoint max_nest (toks : list ltoken) (cur best : Z) : Z :=
+    match toks with
+    | [] => best
+    | t :: r =>
+        match lt_tok t with
+        | TkP TGroupStart | TkP TListStart | TkP TArrayStart =>
+            max_nest r (cur + 1) (Z.max best (cur + 1))
+        | TkP TGroupEnd | TkP TListEnd | TkP TArrayEnd => max_nest r (cur - 1) best
+        | _ => max_nest r cur best
+        end
+    end.
+  (* 5 stack entries per open "name = {" (Appendix B); YYMAXDEPTH entries in all *)
+  Definition NEST_LIMIT : Z := YYMAXDEPTH / 5 - 100.
+
   Definition config_read (FS : fs) (c : cfg) (top : option bytes) (text : bytes) : rd_result :=
     let '(c1, ev_clear) := clear_cfg (set_err c err0) in      (* __config_reset_error, config_clear *)
     let root0 := set_pos (c_root c1) 0 top in          (* config->root->file = top filename *)
     let '(toks, stop) := lex_top FS c1 top text in
     let s0 := mkP root0 toks false O 0 None in
+    if NEST_LIMIT <? max_nest toks 0 0 then mkRd c1 RdNest ev_clear [] else
     let res := p_config (get_option c1 OPT_OVERRIDES) s0 in
     let fin := match res with POk s | PErr _ s | PFatal s | PStuck s => s end in
     let rtoks := read_tokens toks (p_read fin) in
